@@ -163,11 +163,11 @@ def run(ctx):
     for i, P in enumerate((2, 3, 4, 8)):
         thr += S.sweep(ctx, 150 if q else 2500, 24, precs="dz" if q else "sdcz", drivers=("gssvx",), flavour="asan",
                        force={"nprocs": P, "lwork": 4000000, "dominant": True}, seed_offset=1400 + i)
-    S.judge(ctx, thr, ["wfL", "wfU", "permr", "permc", "lu", "resid"], "threads+userwork")
+    S.judge(ctx, thr, ["wfL", "wfU", "permr", "permc", "lu"], "threads+userwork", need_info0=False)   # (the residual-vs-factors judge is for the simple driver: p?gssvx refines X)
     for r in thr:
         if r["status"] == "ok":
             hist["threads+userwork:info=%s" % ("0" if r["info"] == 0 else "k")] += 1
-            if r["info"] != 0:
+            if r["info"] not in (0, r["cfg"]["n"] + 1):      # n+1 = "rcond below machine precision", a documented successful return (C12's subject)
                 ctx.violation("threads+userwork:info", "nonsingular (diagonally dominant) matrix, ample caller workspace, P=%d: info=%d (internal-memory mode reports 0)" % (r["cfg"]["nprocs"], r["info"]), S.replay_blob(r))
             if r["res"].get("redzone") == 0:
                 ctx.violation("threads+userwork:redzone", "guard band around the caller buffer damaged (P=%d)" % r["cfg"]["nprocs"], S.replay_blob(r))
